@@ -18,6 +18,8 @@ class Mark(Enum):
     Astral = "\U0001F600"
     Upper = "PLAIN"
     Newline = "line\nbreak"
+    Line_separator = "first\u2028second"
+    File_separator = "a\x1cb\x85c"
 
 
 class Level(Enum):
@@ -64,6 +66,26 @@ Words: Set[str] = constant_set(
     values=["a", "it's", "\\", "", "\U0001F600", "A"],
     description="Words.",
     superset_of=[Small_words],
+)
+
+Flags: Set[bool] = constant_set(
+    values=[True, False],
+    description="Flags.",
+)
+
+Only_false: Set[bool] = constant_set(
+    values=[False],
+    description="Only false.",
+)
+
+Ratios: Set[float] = constant_set(
+    values=[0.5, 1.5],
+    description="Ratios.",
+)
+
+Separated_words: Set[str] = constant_set(
+    values=["first\u2028second", "a\x1cb", "c\x85d", "e\u2029f"],
+    description="Words with exotic line separators.",
 )
 
 Numbers: Set[int] = constant_set(
